@@ -26,7 +26,10 @@ type zzReader struct {
 func ZzC12() {
 	ctx := context.Background()
 	R := zz.Param("R", 1)
-	cfg := zzCfgsQuick[zz.Choice("cfg", 2)+2] // batch 64: appended headers stay in the write batch
+	// batch 1: every append is flushed at once and the write batch is emptied again;
+	// batch 64: appended headers stay in the write batch
+	cfgIdx := []int{0, 3, 2}
+	cfg := zzCfgsQuick[cfgIdx[zz.Choice("cfg", zz.Param("CFGS", 2))]]
 	d := zzNewMemDS()
 	s := zzOpen(d, cfg)
 	chain := zzChain(cfg.base, 6)
